@@ -14,6 +14,11 @@ from .values import (Unsupported, Obj, EnumSym, SBytes, Guarded, Opaque, SList, 
                      BoundSym, TimerRec)
 from .arith import Arith
 
+
+class UndefinedUse(Unsupported):
+    """an undefined value (result of a raising call / unassigned local) was used"""
+
+
 TRUE = z3.BoolVal(True)
 FALSE = z3.BoolVal(False)
 
@@ -80,7 +85,7 @@ class Interp(Arith):
         self.notes = []
         self.prune = False
         self._psolver = z3.Solver()
-        self._psolver.set("timeout", 2000)
+        self._psolver.set("timeout", int(__import__("os").environ.get("VERIF_PRUNE_TIMEOUT_MS", "150")))
         self._nass = 0
         self.nprune = 0
 
@@ -214,14 +219,22 @@ class Interp(Arith):
             if self.pybool(pc) is False:
                 return FALSE
             n0 = len(self.raises)
-            pc = self.exec_stmt(st, fr, pc)
+            pc0 = pc
+            try:
+                pc = self.exec_stmt(st, fr, pc)
+            except UndefinedUse as e:
+                # a value that exists on no feasible path was used: decide feasibility of this path exactly
+                if self.unsat(pc0, full=True):
+                    del self.raises[n0:]
+                    return FALSE
+                raise Unsupported(str(e.args[0]) + " on a feasible path")
             new = self.raises[n0:]
             if new and not isinstance(st, (ast.Try, ast.If, ast.For, ast.While, ast.With)):
                 pc = z3.And(pc, z3.Not(z3.Or(*[c for c, _ in new])))
             if isinstance(pc, bool):
                 pc = z3.BoolVal(pc)
             pc = z3.simplify(pc)
-            if new and self.pybool(pc) is not False and self.unsat(pc):
+            if new and self.pybool(pc) is not False and (self.dead_after(pc0, new) or self.unsat(pc)):
                 return FALSE
         return pc
 
@@ -335,12 +348,34 @@ class Interp(Arith):
             env0.clear(); env0.update(merged)
         return z3.simplify(z3.Or(pt, pf))
 
+    @staticmethod
+    def _conjuncts(c):
+        out, todo = set(), [c]
+        while todo:
+            x = todo.pop()
+            if z3.is_and(x):
+                todo.extend(x.children())
+            else:
+                out.add(x.get_id())
+        return out
+
+    def dead_after(self, pc, new):
+        """syntactic check: some new raise covers the whole incoming path condition"""
+        pcs = self._conjuncts(z3.simplify(pc))
+        for c, _ in new:
+            if self._conjuncts(z3.simplify(c)) <= pcs:
+                return True
+        return False
+
     def infeasible(self, cond):
         return self.prune and self.unsat(cond)
 
-    def unsat(self, cond):
-        """cheap feasibility query used only to prune dead paths (sound either way)"""
+    def unsat(self, cond, full=False):
+        """feasibility query used only to prune dead paths (sound either way); full = no time limit"""
         s = self._psolver
+        if full:
+            s = z3.Solver()
+            s.set("timeout", 60000)
         s.push()
         try:
             s.add(cond, *self.assumptions[self._nass:])
